@@ -268,7 +268,7 @@ def run_G(rs, ctx, j):
     pr = c.Process(target=_g_child, args=(child, cfg, ops))
     pr.start()
     child.close()
-    res = parent.recv() if parent.poll(240) else None
+    res = parent.recv() if parent.poll(900) else None
     pr.join(10)
     if pr.is_alive():
         pr.kill()
